@@ -509,6 +509,7 @@ func c05Restart(c *Check) {
 	for _, cs := range p.CallsTo(loadState) {
 		c.Result(cs.Caller == newRaft, "C05.R", "caller of loadState", fnName(cs.Caller), p.site(cs.Instr), "only newRaft", "")
 	}
+	loadStateComplete(c, "C05.R")
 	// the raft literal in newRaft does not set Term/Vote (they come from loadState only)
 	termF, voteF := p.Field("raft", "raft", "Term"), p.Field("raft", "raft", "Vote")
 	for _, f := range []*types.Var{termF, voteF} {
@@ -517,6 +518,39 @@ func c05Restart(c *Check) {
 				c.Bad("C05.R", "newRaft sets raft."+f.Name(), fnName(newRaft), p.site(st.Instr), "Term/Vote of a new instance come from Storage only", "")
 			}
 		}
+	}
+}
+
+// loadStateComplete: every normal return of loadState has restored all three persisted fields
+// (term, vote, commit) from the HardState it was given — none of them conditionally.
+func loadStateComplete(c *Check, rule string) {
+	p := c.P
+	loadState := p.Method("raft", "raft", "loadState")
+	if loadState == nil {
+		return
+	}
+	fi := p.Info(loadState)
+	want := []struct {
+		fld    *types.Var
+		getter string
+	}{
+		{p.Field("raft", "raft", "Term"), "GetTerm"},
+		{p.Field("raft", "raft", "Vote"), "GetVote"},
+		{p.Field("raft", "raftLog", "committed"), "GetCommit"},
+	}
+	hs := fi.Sym(loadState.Params[1])
+	for _, w := range want {
+		ok := false
+		for _, st := range p.StoresTo(w.fld) {
+			if st.Fn != loadState || st.Whole {
+				continue
+			}
+			v := fi.Sym(st.Val)
+			if v.K == KCall && v.Fn != nil && v.Fn.Name() == w.getter && len(v.Args) == 1 && v.Args[0].Key() == hs.Key() && mustPass(fi, st.Instr) {
+				ok = true
+			}
+		}
+		c.Result(ok, rule, "loadState restores "+w.fld.Name(), fnName(loadState), p.Pos(loadState.Pos()), w.fld.Name()+" <- state."+w.getter+"() on every path that returns (a restarted node resumes with exactly what it persisted)", "")
 	}
 }
 
